@@ -77,7 +77,10 @@ func c04Files(quick bool) []c04File {
 	add("ref-trickle-L10", fileCase{Writer: "trickle/raw=true/v1=true", W: 2, Chunker: "size-3", L: 10, K: 3, Pattern: "equal"})
 	// hand-written encodings: interior nodes without BlockSizes over dag-pb
 	// children (the reader measures children by opening them), and equal chunks
-	for _, h := range []string{"hand 2x2 leaves=pbfile blocksizes=none filesize=true", "hand 3 leaves=pbraw blocksizes=none filesize=false"} {
+	// ... and a file whose every second dag-pb leaf is inlined in its link
+	// (identity-multihash CID), one with Raw-typed interior nodes
+	for _, h := range []string{"hand 2x2 leaves=pbfile blocksizes=none filesize=true", "hand 3 leaves=pbraw blocksizes=none filesize=false",
+		"hand 3 leaves=pbfile blocksizes=all filesize=true inline=odd", "hand 2x2 leaves=raw blocksizes=all filesize=true nodetype=raw"} {
 		if spec, ok := gen.HandByLabel(h); ok {
 			_, content := spec.Build(store.New())
 			out = append(out, c04File{Label: h, Case: fileCase{L: len(content), K: 3}, Chunk: 3, Hand: h})
